@@ -127,3 +127,10 @@ for _p in ("C01", "C02", "C16"):
     PROPS[_p]["rule"] += (" Since round 7 a WebSocket handshake is answered through a response writer that can be hijacked (an in-memory pipe; the client "
                           "side sends one empty JSON message and a close frame): it reaches its method and is judged in full (soundness, completeness, "
                           "model), also by the RD cases of C11; one rule verb in eight is the custom kind WEBSOCKET.")
+PROPS["C14"]["rule"] += (" C14B <trailer md>: the raw trailer block of a gRPC-web response (the bytes a client parses) for trailer values with blank space at "
+                          "their ends, tabs, CR / LF followed by forged fields, colons, non-ASCII bytes, empty values, several values per key and random "
+                          "short values over {a b space tab CR LF : x -}: the extracted parser must read exactly the values set (wire_value) and nothing "
+                          "else, and the extracted writer must produce the same bytes for the x- keys.")
+PROPS["C14"]["trusted"] = list(PROPS["C14"].get("trusted", [])) + [
+    "net/http Header.Write (sorted keys, CR / LF -> space, TrimString) is transcribed in Model/TrailerBlock.v: a library function, modelled; tied to "
+    "the real bytes by the C14B cases"]
